@@ -58,6 +58,9 @@ SnapOK(e) ==
        /\ (sn.status # 0 /\ ~x[sn.x].held) => sn.status = x[sn.x].status
 
 Armed(k) == k \in armed /\ cfg.store
+\* gateW holds a GET in the first Write of its replay (the harness disarms it when the GET wrote nothing):
+\* the same critical section as After; it is reached iff there is something to write
+WillWrite(s, t, i) == t = "sa" \/ Len(log[s][t]) > i + 1
 
 \* the environment action named by a step line
 EnvStep(e) ==
@@ -65,13 +68,14 @@ EnvStep(e) ==
     [] e.op = "post" -> PostStart(e.a1, e.a2, Armed(<<"O", PX(e.a1, e.a2)>>)) /\ armed' = armed \ {<<"O", PX(e.a1, e.a2)>>}
     [] e.op = "upd"  -> HBcast(e.a1, e.a2) /\ armed' = armed
     [] e.op = "gateO" -> Same /\ armed' = armed \cup {<<"O", e.a1>>}
-    [] e.op = "gateW" -> Same /\ armed' = armed \cup {<<"F", e.a1>>}   \* held in the first Write of the replay: same critical section
+    [] e.op = "gateW" -> Same /\ armed' = armed \cup {<<"W", e.a1>>}
     [] e.op = "emit" -> HEmit(e.a1, e.a2, Armed(<<"A", e.a1, e.a2>>)) /\ armed' = armed \ {<<"A", e.a1, e.a2>>}
     [] e.op = "sreq" -> HSreq(e.a1, e.a2, Armed(<<"A", e.a1, e.a2>>)) /\ armed' = armed \ {<<"A", e.a1, e.a2>>}
     [] e.op = "ret"  -> HRet(e.a1, e.a2, Armed(<<"A", e.a1, e.a2>>)) /\ armed' = armed \ {<<"A", e.a1, e.a2>>}
     [] e.op = "ans"  -> Ans(e.a1, e.a2) /\ armed' = armed
     [] e.op = "sa"   -> Sa(e.a1, Armed(<<"A", e.a1, "sa">>)) /\ armed' = armed \ {<<"A", e.a1, "sa">>}
-    [] e.op = "get"  -> Get(e.a1, e.a2, e.a3, e.ri, Armed(<<"F", e.a1>>)) /\ armed' = armed \ {<<"F", e.a1>>}
+    [] e.op = "get"  -> Get(e.a1, e.a2, e.a3, e.ri, Armed(<<"F", e.a1>>) \/ (Armed(<<"W", e.a1>>) /\ WillWrite(e.a2, e.a3, e.ri)))
+                        /\ armed' = armed \ {<<"F", e.a1>>, <<"W", e.a1>>}
     [] e.op = "cut"  -> Cut(e.a1) /\ armed' = armed
     [] e.op = "del"  -> Del(e.a1) /\ armed' = armed
     [] e.op = "gateA" -> Same /\ armed' = armed \cup {<<"A", e.a1, e.a2>>}   \* (not applied while that gate is holding)
